@@ -735,13 +735,64 @@ impl DomSim {
         fn build(world: &World, node: &NodeSpec, base: NodeId, next: &mut u32) -> InstanceBuilder {
             let me = world.ref_of[&(base + *next)];
             *next += 1;
-            let mut b = InstanceBuilder::new(node.class.as_str()).with_referent(me).with_name(node.name.clone());
-            for (k, v) in &node.props {
-                let val = spec::value_of(v, &|t| DomSim::resolve(world, t));
-                b.add_property(k.as_str(), val);
+            // Every way the builder API offers to say the same thing is used, chosen
+            // by a function of the node's position in the trace.
+            let style = crate::prng::derive(0x6275696c64, (base + *next) as u64);
+            let class = node.class.as_str();
+            let mut b = match style % 4 {
+                0 => InstanceBuilder::new(class).with_referent(me).with_name(node.name.clone()),
+                1 => InstanceBuilder::empty().with_class(class).with_name(node.name.clone()).with_referent(me),
+                2 => {
+                    let mut b = InstanceBuilder::with_property_capacity("VerifPlaceholder", node.props.len());
+                    b.set_class(class);
+                    b.set_name(node.name.clone());
+                    b.with_referent(me)
+                }
+                _ if node.name == node.class => InstanceBuilder::new(class).with_referent(me),
+                _ => InstanceBuilder::with_property_capacity(class, 0).with_referent(me).with_name(node.name.clone()),
+            };
+            let vals: Vec<(&str, Variant)> =
+                node.props.iter().map(|(k, v)| (k.as_str(), spec::value_of(v, &|t| DomSim::resolve(world, t)))).collect();
+            match (style >> 2) % 4 {
+                0 => {
+                    for (k, val) in vals {
+                        b.add_property(k, val);
+                    }
+                }
+                1 => {
+                    for (k, val) in vals {
+                        b = b.with_property(k, val);
+                    }
+                }
+                2 => b = b.with_properties(vals),
+                _ => {
+                    let mut first = vals;
+                    let rest = first.split_off(first.len() / 2);
+                    b = b.with_properties(first);
+                    b.add_properties(rest);
+                }
             }
+            let mut kids: Vec<InstanceBuilder> = Vec::with_capacity(node.children.len());
             for c in &node.children {
-                b.add_child(build(world, c, base, next));
+                kids.push(build(world, c, base, next));
+            }
+            match (style >> 4) % 4 {
+                0 => {
+                    for k in kids {
+                        b.add_child(k);
+                    }
+                }
+                1 => {
+                    for k in kids {
+                        b = b.with_child(k);
+                    }
+                }
+                2 => b = b.with_children(kids),
+                _ => {
+                    let rest = kids.split_off(kids.len() / 2);
+                    b = b.with_children(kids);
+                    b.add_children(rest);
+                }
             }
             b
         }
